@@ -42,7 +42,10 @@ impl Interpreter {
                 self.state.clone()
             }
             ScriptBit::If { code, pass, fail } => {
-                let predicate = self.state.stack.pop_bool()?;
+                let predicate = match code {
+                    OpCodes::OP_NOTIF | OpCodes::OP_VERNOTIF => !self.state.stack.pop_bool()?,
+                    _ => self.state.stack.pop_bool()?,
+                };
                 self.state.executed_opcodes.push(*code);
 
                 if predicate {
